@@ -58,6 +58,11 @@ def gen(tier, rng):
     for t in ts:
         for client in "sa":
             cases.append(f"wstall\t{client}\t{t}\t16")
+            if client == "s":
+                # ... on a connection of its own whose timeout was configured after the set-up (`set_timeout`)
+                cases.append(f"wstall\tc\t{t}\t16")
+                for at in "mz":
+                    cases.append(f"tstall\tc\t{t}\tp\t{at}")
             # the stall is in the TCP connect itself (full accept queue, SYNs dropped)
             cases.append(f"cstall\t{client}\t{t}\t-")
             # ... also for a connection of its own bound to a local address
